@@ -62,12 +62,12 @@ macro_rules
        subst e
        clear hr $h))
 
-theorem rel_limit_test {bad : Res} {c c' : Prop} [Decidable c] [Decidable c'] {l x y : State × Res}
-    (h1 : c' → c) (h2 : c → ¬ c' → l.2 = bad) (h : Rel bad x y) :
-    Rel bad (if c then l else x) (if c' then l else y) := by
+theorem rel_limit_test {bad : Res} {c c' : Prop} [Decidable c] [Decidable c'] {l l' x y : State × Res}
+    (h1 : c' → c) (hl : c' → l' = l) (h2 : c → ¬ c' → l.2 = bad) (h : Rel bad x y) :
+    Rel bad (if c then l else x) (if c' then l' else y) := by
   by_cases hc : c
   · by_cases hc' : c'
-    · rw [if_pos hc, if_pos hc']; exact Rel.rfl' _
+    · rw [if_pos hc, if_pos hc', hl hc']; exact Rel.rfl' _
     · rw [if_pos hc, if_neg hc']; intro hh; exact absurd (h2 hc hc') hh
   · have hc' : ¬ c' := fun a => hc (h1 a)
     rw [if_neg hc, if_neg hc']; exact h
@@ -112,6 +112,9 @@ theorem step_execTail {bad : Res} {f m f' m' : Nat} (hbad : Passed bad) (hm : Bu
   apply rel_limit_test
   · rcases hm with rfl | ⟨rfl, _⟩
     · exact id
+    · intro h; exact absurd h.1 (Nat.lt_irrefl 0)
+  · rcases hm with rfl | ⟨rfl, _⟩
+    · intro _; rfl
     · intro h; exact absurd h.1 (Nat.lt_irrefl 0)
   · rcases hm with rfl | ⟨rfl, rfl⟩
     · intro h h'; exact absurd h h'
